@@ -1,5 +1,7 @@
 import Okane.Lemmas.Expr
 import Okane.Model.ExprSyntax
+import Okane.Lemmas.ExprParse
+import Okane.Lemmas.ExprParseImage
 /-!
 # C08 — value expressions evaluate as ordinary arithmetic with commodity typing
 
@@ -453,5 +455,139 @@ example : Rel (.commodities [("A", 1), ("B", 2)]) (.com ["A", "B"] fun c => if c
 
 /-- `C08_single` is not vacuous -/
 example : Amount.toSingle [("A", (3 : Rat))] = .ok ⟨3, "A"⟩ := rfl
+
+/-! ## C08_parse — the parser reads the printed form back: precedence and left associativity
+
+Model: `Okane.ExprSyntax` (`parse/expr.rs`: `value_expr`, `paren_expr`, `add_expr`/`mul_expr` = `infixl` =
+`separated_foldl1`, `unary_expr`, `amount`; `parse/primitive.rs`: `pretty_decimal`, `commodity`;
+`syntax/display.rs`: `fmt_with_alignment`).  Proofs: `Lemmas/ExprParse.lean`.
+
+A stratified tree `a : AddE` *is* a reading of an expression in which `*` and `/` bind tighter than `+` and `-`, and
+operators of equal precedence nest to the left (`Spec/Expr.lean`).  `C08_parse` says that the text the printer writes
+for the tree `a.toExpr` is read back by the parser as exactly `a.toExpr`, for every printable `a` and every
+continuation; `C08_parse_unambiguous` that no other stratified tree has that text.
+Printable (`AddE.ok`): numbers the literal scanner reads back (`wfNumber`), commodities made of commodity characters,
+and no negative literal as an un-negated operand (`(-1)` is read as the negation of `1`: `not_C08_parse_wfOnly`). -/
+
+open Okane.ExprSyntax Okane.ExprParse
+open Okane.Unparse (noPrec wfVExpr)
+
+/-- a parenthesised stratified sum, followed by anything at all, is read back as its own tree, and the reading of
+that tree as a stratified tree (`Spec.ofVExpr`) is the tree we started from -/
+theorem C08_parse (a : AddE) (rest : List Char) (hok : a.ok = true) :
+    parseValueExpr (printVExpr noPrec (.paren a.toExpr) ++ rest) = .ok (.paren a.toExpr) rest ∧
+    ofVExpr (.paren a.toExpr) = some (.paren a) := by
+  have h := valueE_roundtrip (.paren a) rest (by simpa only [ValueE.ok] using hok) rfl
+  rw [← valueE_print] at h
+  exact ⟨h, ofVExpr_toVExpr (.paren a)⟩
+
+/-- any stratified value (an amount, or a parenthesised sum) before a continuation that does not extend its last
+token; after a number without commodity the parser also eats the blanks (`after`) -/
+theorem C08_parse_value (v : ValueE) (rest : List Char) (hok : v.ok = true) (hf : v.follow rest = true) :
+    parseValueExpr (printVExpr noPrec v.toVExpr ++ rest) = .ok v.toVExpr (after v.bare rest) := by
+  rw [valueE_print]; exact valueE_roundtrip v rest hok hf
+
+/-- `add_expr` itself (the parser inside parentheses), any sufficient fuel, before a continuation that neither
+extends the last token nor continues the sum or the product -/
+theorem C08_parse_sum (a : AddE) (f : Nat) (rest : List Char) (hok : a.ok = true)
+    (hf : tokFollow a.bare rest = true) (hm : mulStop rest = true) (ha : addStop rest = true)
+    (hfuel : 5 * (printExpr noPrec a.toExpr).length + 5 ≤ f) :
+    addExpr f (printExpr noPrec a.toExpr ++ rest) = .ok a.toExpr (after a.bare rest) := by
+  rw [addE_print] at hfuel ⊢; exact addE_roundtrip a f rest hok hf hm ha hfuel
+
+/-- the same on the parser's own tree type (the form the ledger round trip C05 uses): every well-formed
+(`Unparse.wfVExpr`: stratified, numbers and commodities printable) plain tree -/
+theorem C08_parse_tree (v : VExpr) (rest : List Char) (hw : wfVExpr v = true) (hp : plainV v = true)
+    (hf : follow v rest = true) :
+    parseValueExpr (printVExpr noPrec v ++ rest) = .ok v (afterV v rest) :=
+  parse_print v rest hw hp hf
+
+/-- … before anything that can follow a value expression in a ledger file -/
+theorem C08_parse_follow (v : VExpr) (rest : List Char) (hw : wfVExpr v = true) (hp : plainV v = true)
+    (hf : ExprFollow rest = true) :
+    ∃ r', parseValueExpr (printVExpr noPrec v ++ rest) = .ok v r' ∧ skipSpaces r' = skipSpaces rest ∧
+      (r' = rest ∨ r' = skipSpaces rest) :=
+  parse_print_follow v rest hw hp hf
+
+/-- … and with declared display precisions: the numbers come back padded as printed -/
+theorem C08_parse_prec (p : String → Nat) (v : VExpr) (rest : List Char) (hw : wfVExpr (rescaleV p v) = true)
+    (hp : plainV (rescaleV p v) = true) (hf : follow v rest = true) :
+    parseValueExpr (printVExpr p v ++ rest) = .ok (rescaleV p v) (afterV v rest) :=
+  parse_print_prec p v rest hw hp hf
+
+/-- the printed text determines the nesting: two printable stratified trees with the same text are equal -/
+theorem C08_parse_unambiguous (a b : ValueE) (ha : a.ok = true) (hb : b.ok = true)
+    (h : printVExpr noPrec a.toVExpr = printVExpr noPrec b.toVExpr) : a = b := by
+  rw [valueE_print, valueE_print] at h; exact text_injective a b ha hb h
+
+/-- the round trip with `wfVExpr` as the only hypothesis on the tree (kept visible; it is false) -/
+def C08_parse_wfOnly_stmt : Prop :=
+  ∀ (v : VExpr) (rest : List Char), wfVExpr v = true → follow v rest = true →
+    parseValueExpr (printVExpr noPrec v ++ rest) = .ok v (afterV v rest)
+
+/-- witness `(-1)`: printed from `Paren(Value(Amount -1))`, read back as `Paren(Negate(Value(Amount 1)))` -/
+theorem not_C08_parse_wfOnly : ¬ C08_parse_wfOnly_stmt := not_parse_print_wfOnly
+
+/-! ### non-vacuity: `1 + 2 * 3 - 4`, `(1 - 2) - 3` against `1 - (2 - 3)`, `-2 * -(3 A)` -/
+
+def lit (n : Nat) : UnaryE := .pos (.amt ⟨false, n, 0, none⟩ "")
+def elit (n : Nat) : Expr := .val (.amt ⟨false, n, 0, none⟩ "")
+
+/-- `1 + 2 * 3 - 4` as the stratified tree `(1 + (2 * 3)) - 4` -/
+def exPrec : AddE := .sub (.add (.one (.one (lit 1))) (.mul (.one (lit 2)) (lit 3))) (.one (lit 4))
+
+example : exPrec.ok = true ∧ printVExpr noPrec (.paren exPrec.toExpr) = "(1 + 2 * 3 - 4)".toList := by decide +kernel
+example : parseValueExpr "(1 + 2 * 3 - 4)\n".toList =
+    .ok (.paren (.bin .sub (.bin .add (elit 1) (.bin .mul (elit 2) (elit 3))) (elit 4))) ['\n'] := by
+  have h := (C08_parse exPrec ['\n'] (by decide +kernel)).1
+  have hp : printVExpr noPrec (.paren exPrec.toExpr) = "(1 + 2 * 3 - 4)".toList := by decide +kernel
+  rw [hp] at h
+  exact h
+
+/-- `1 - 2 - 3` is `(1 - 2) - 3` … -/
+def exLeft : AddE := .sub (.sub (.one (.one (lit 1))) (.one (lit 2))) (.one (lit 3))
+/-- … and `1 - (2 - 3)` needs its parentheses -/
+def exRight : AddE :=
+  .sub (.one (.one (lit 1))) (.one (.pos (.paren (.sub (.one (.one (lit 2))) (.one (lit 3))))))
+
+example : exLeft.ok = true ∧ exRight.ok = true ∧
+    printVExpr noPrec (.paren exLeft.toExpr) = "(1 - 2 - 3)".toList ∧
+    printVExpr noPrec (.paren exRight.toExpr) = "(1 - (2 - 3))".toList := by decide +kernel
+example : exLeft.toExpr = .bin .sub (.bin .sub (elit 1) (elit 2)) (elit 3) := rfl
+example : exRight.toExpr = .bin .sub (elit 1) (.val (.paren (.bin .sub (elit 2) (elit 3)))) := rfl
+example : ValueE.paren exLeft ≠ ValueE.paren exRight := by
+  intro h
+  have := congrArg ValueE.text h
+  revert this
+  decide +kernel
+
+/-- a negative amount as the whole expression, a negated operand, a commodity, thousands separators -/
+def exAmt : ValueE := .amt ⟨true, 1234567, 2, some .comma3dot⟩ "JPY"
+example : exAmt.ok = true ∧ exAmt.follow " @ 1".toList = true ∧
+    printVExpr noPrec exAmt.toVExpr = "-12,345.67 JPY".toList := by decide +kernel
+example : parseValueExpr "-12,345.67 JPY @ 1".toList = .ok exAmt.toVExpr " @ 1".toList := by
+  have h := C08_parse_value exAmt " @ 1".toList (by decide +kernel) (by decide +kernel)
+  have hp : printVExpr noPrec exAmt.toVExpr = "-12,345.67 JPY".toList := by decide +kernel
+  rw [hp] at h
+  exact h
+
+/-- the hypotheses of `C08_parse_tree` / `C08_parse_follow` on the parser's tree type: `(-2 * -(3 A) / 4)` -/
+def exTree : VExpr :=
+  .paren (.bin .div (.bin .mul (.neg (elit 2)) (.neg (.val (.paren (.val (.amt ⟨false, 3, 0, none⟩ "A")))))) (elit 4))
+example : wfVExpr exTree = true := by
+  simp only [exTree, elit, wfVExpr, Unparse.wfAdd, Unparse.wfMul, Unparse.wfUnary]; decide +kernel
+example : plainV exTree = true ∧ ExprFollow " = 0".toList = true ∧
+    printVExpr noPrec exTree = "(-2 * -(3 A) / 4)".toList := by decide +kernel
+
+/-! ### the image: every tree the parser returns, for any input, is stratified and plain -/
+
+/-- whatever the input: a tree `value_expr` returns reads (`Spec.ofVExpr`) as a stratified tree `t` with
+`t.toVExpr` the tree itself — so in the parser's output an operand of `*`, `/` is never a bare sum, the right operand
+of any operator is one level down (left nesting), negation applies to a value — and it is plain -/
+theorem C08_parse_image (inp rest : List Char) (v : VExpr) (h : parseValueExpr inp = .ok v rest) :
+    (∃ t : ValueE, ofVExpr v = some t ∧ t.toVExpr = v) ∧ plainV v = true :=
+  parseValueExpr_image h
+
+example : parseValueExpr "(1 - 2 - 3)".toList = .ok (.paren exLeft.toExpr) [] := by decide +kernel
 
 end Okane.C08
